@@ -7,7 +7,7 @@ from props import common
 
 ID = "C03"
 TIERS = {"quick": dict(examples=2000), "thorough": dict(examples=60000)}
-RULE = ("Hypothesis generates (message lists per direction incl. empty/equal/large payloads, code-entry method, "
+RULE = ("Hypothesis generates (message lists per direction incl. empty/equal/large payloads and 11-14-message histories, code-entry method, "
         "API style, a schedule tape, a budget of 0-5 connection losses, server-side duplication/reordering of "
         "`message` events); two real clients + the real mailbox server run in the simulated world under that "
         "tape. Oracle: after EVERY step the messages received by each side are a positional prefix of the peer's "
@@ -30,6 +30,10 @@ def cases(draw, tier="quick"):
     P["sends"] = [draw(st.lists(payload, max_size=8)), draw(st.lists(payload, max_size=8))]
     if draw(st.integers(0, 40)) == 0:
         P["sends"][0] = P["sends"][0] + [b"\xa5" * 65536]
+    if draw(st.integers(0, 7)) == 0:
+        # a long one-directional history (two-digit phase numbers), tiny payloads
+        side = draw(st.integers(0, 1))
+        P["sends"][side] = [b"%d" % k for k in range(draw(st.integers(11, 14)))]
     P["drops"] = draw(st.sampled_from([0, 0, 1, 2, 3, 5]))
     P["dup"] = draw(st.booleans())
     P["reorder"] = draw(st.booleans())
